@@ -138,3 +138,75 @@ func ZZ_C01_script() {
 	vAssert("Hash256", vEqBytes(Hash256(script), h256))
 	vReach("end")
 }
+
+// ZZ_C01_legacy: Base58Check P2PKH / P2SH on every net (Base58 itself: abstract bijection, C07).
+func ZZ_C01_legacy() {
+	net := zzNet()
+	hash := vBytes("hash", 20)
+	var a Address
+	var err error
+	var ver byte
+	if vCase("kind", 0, 1) == 0 {
+		a, err = NewLegacyAddressPubKeyHash(hash, net)
+		ver = net.LegacyPubKeyHashAddrID
+	} else {
+		a, err = NewLegacyAddressScriptHashFromHash(hash, net)
+		ver = net.LegacyScriptHashAddrID
+	}
+	vAssert("constructed", err == nil)
+	s := a.EncodeAddress()
+	body := append([]byte{ver}, hash...)
+	body = append(body, zzDsha(body)[:4]...)
+	vAssert("legacy:spec-string", s == zzB58(body))
+	vAssert("legacy:payload-kept", vEqBytes(a.ScriptAddress(), hash))
+	zzCheckDecoded("legacy", s, s, a, net, true)
+	vReach("end")
+}
+
+// ZZ_C01_pubkey: raw public keys in the three serialisations.
+func ZZ_C01_pubkey() {
+	net := zzNet()
+	format := vCase("format", 0, 2)
+	var ser []byte
+	switch format {
+	case 0:
+		ser = vBytes("pk", 33)
+		vAssume(ser[0] == 2 || ser[0] == 3)
+	case 1:
+		ser = vBytes("pk", 65)
+		vAssume(ser[0] == 4)
+	case 2:
+		ser = vBytes("pk", 65)
+		vAssume(ser[0] == 6 || ser[0] == 7)
+	}
+	_, perr := zzStubParsePubKey(ser, zzStubS256())
+	vAssume(perr == nil)
+	a, err := NewAddressPubKey(ser, net)
+	vAssert("pubkey:constructed", err == nil)
+	if err != nil {
+		return
+	}
+	vAssert("pubkey:script-is-serialisation", vEqBytes(a.ScriptAddress(), ser))
+	want := [3]PubKeyFormat{PKFCompressed, PKFUncompressed, PKFHybrid}[format]
+	vAssert("pubkey:format", a.Format() == want)
+	vAssert("pubkey:is-for-net", a.IsForNet(net))
+	s := a.String()
+	d, err := DecodeAddress(s, net)
+	vAssert("pubkey:accepted", err == nil)
+	if err != nil {
+		return
+	}
+	pk, same := d.(*AddressPubKey)
+	vAssert("pubkey:same-kind", same)
+	if same {
+		vAssert("pubkey:payload", vEqBytes(pk.ScriptAddress(), ser))
+		vAssert("pubkey:re-encode", pk.String() == s)
+		vAssert("pubkey:decoded-is-for-net", pk.IsForNet(net))
+		vAssert("pubkey:p2pkh-string", pk.EncodeAddress() == a.EncodeAddress())
+	}
+	// the pay-to-pubkey-hash rendering is Base58Check(version, Hash160(serialisation))
+	body := append([]byte{net.LegacyPubKeyHashAddrID}, Hash160(ser)...)
+	body = append(body, zzDsha(body)[:4]...)
+	vAssert("pubkey:encode-address", a.EncodeAddress() == zzB58(body))
+	vReach("end")
+}
